@@ -43,9 +43,10 @@ def _job(args):
     cases, metas = [], []
     glob_cases = []
     while len(cases) < n:
-        pool = rng.choice((rules.COLLISION_FREE, rules.ADVERSARIAL))
-        nodes = rules.rand_tree(rng, pool, max_nodes=rng.choice([5, 8, 12]))
-        edges = rules.rand_edges(rng, nodes)
+        large = rng.random() < 0.1          # now and then beyond hand-written sizes
+        pool = rules.LARGE_POOL if large else rng.choice((rules.COLLISION_FREE, rules.ADVERSARIAL))
+        nodes = rules.rand_tree(rng, pool, max_nodes=rng.choice([25, 40]), max_depth=7) if large else rules.rand_tree(rng, pool, max_nodes=rng.choice([5, 8, 12]))
+        edges = rules.rand_edges(rng, nodes, 25 if large else 8)
         arch_nodes = nodes  # direct constructor: modules are exactly the nodes
         kind = rng.choice(["regex_subj", "regex_obj", "glob_subj", "batch"])
         specs, groups = [], []
@@ -73,7 +74,7 @@ def _job(args):
                         specs += [compact, expanded]
                         groups.append(("expansion", i, i + 1, all_matched))
         else:
-            fp = rules.pick_filters(rng, nodes, strict=rng.random() < 0.4)
+            fp = rules.pick_filters(rng, nodes, strict=rng.random() < 0.4, kmax=6 if large else 3)
             if fp is None:
                 continue
             S, O = fp
@@ -212,8 +213,42 @@ def same_rule_object_on_other_architectures(ctx: Ctx, n: int):
         ctx.mark_nontrivial(("reapply", pat, tuple(nodes)))
 
 
+def regex_with_anything(ctx: Ctx, n: int):
+    """'should not import / be imported by anything' with the subject given by a regex vs naming the modules the regex matches.
+    Known finding K3: when the regex matches a module together with its own sub modules the two differ (named lists are
+    reduced to their top-most modules when the alias is rewritten, regex matches are not)."""
+    import re
+    for _ in range(n):
+        rng = ctx.rng
+        nodes = rules.rand_tree(rng, rng.choice((rules.COLLISION_FREE, rules.ADVERSARIAL)), max_nodes=10)
+        edges = rules.rand_edges(rng, nodes, 10)
+        cand = [x for x in nodes if x != "r"]
+        if len(cand) < 2:
+            continue
+        stem = rng.choice(cand)
+        pat = rng.choice([re.escape(stem) + ".*", re.escape(stem) + "$", "(" + "|".join(re.escape(x) + "$" for x in rng.sample(cand, min(len(cand), 3))) + ")"])
+        matched = [x for x in nodes if re.match(pat, x)]
+        if not matched:
+            continue
+        arch = rules.make_arch_direct(nodes, edges)
+        rel = any(rules.related(a, b) for a in matched for b in matched if a != b)
+        for imp in (True, False):
+            compact = dict(subj=("regex", [pat]), verbs=["should_not"], imp=imp, anything=True)
+            expanded = dict(subj=("named", matched), verbs=["should_not"], imp=imp, anything=True)
+            a = rules.run_rule(rules.build_rule(compact), arch)
+            b = rules.run_rule(rules.build_rule(expanded), arch)
+            ctx.evaluations += 2
+            ctx.stat("regex_anything_" + ("related_matches" if rel else "unrelated_matches"))
+            if a[0] != b[0] or (a[0] == "FAIL" and rules.parse_message(a[1]) != rules.parse_message(b[1])):
+                ctx.violation(dict(nodes=nodes, edges=edges, pattern=pat, matched=matched, imp=imp, regex_rule=[a[0], a[1][:200]], named_rule=[b[0], b[1][:200]]),
+                              f"'should not {'import' if imp else 'be imported by'} anything' with regex {pat!r}: {a[0]}; naming its matches {matched}: {b[0]}",
+                              {"kind": "regex_alias", "regex_matches_related_modules": rel})
+        ctx.mark_nontrivial(("rxany", pat, tuple(nodes)))
+
+
 def run(ctx: Ctx):
     same_rule_object_on_other_architectures(ctx, 150 if ctx.quick else 4000)
+    regex_with_anything(ctx, 150 if ctx.quick else 4000)
     n_graphs = 2000 if ctx.quick else 40000
     per = 50
     jobs = [(ctx.rng.randrange(1 << 30), per) for _ in range(n_graphs // per)]
